@@ -7,9 +7,11 @@ Open Scope nat_scope.
 
 (* ---------- classes of the first byte of what follows ---------- *)
 (* [stop k]: k does not continue a declaration tail: not a blank start, not a list separator, not '(' (an annotation
-   list), not a quote (a literal, which after the word cpp_type would be read as a cpp_type clause) *)
+   list), not a quote (a literal, which after the word cpp_type would be read as a cpp_type clause), not a '.' (which
+   would continue a path), not a '=' (a default value) *)
 Definition stopc (b : byte) : bool :=
-  negb (blank_start b) && negb (bmem b [x2c; x3b]) && negb (Byte.eqb b x28) && negb (Byte.eqb b x27 || Byte.eqb b x22).
+  negb (blank_start b) && negb (bmem b [x2c; x3b]) && negb (Byte.eqb b x28) && negb (Byte.eqb b x27 || Byte.eqb b x22) &&
+  negb (Byte.eqb b x2e) && negb (Byte.eqb b x3d).
 Definition stop (k : list byte) : bool := hd_sat stopc k.
 (* [wstop k]: k does not continue a word or a number: an ASCII byte that is not [A-Za-z0-9_] and not '.' *)
 Definition wstopc (b : byte) : bool := N.ltb (bn b) 128 && negb (identch b) && negb (Byte.eqb b x2e).
@@ -19,13 +21,18 @@ Definition nodot (k : list byte) : bool := hd_sat (fun b => negb (Byte.eqb b x2e
 Definition nid (k : list byte) : bool := hd_sat (fun b => negb (identch b)) k.
 
 Lemma stop_nb k : stop k = true -> nb k = true.
-Proof. apply hd_sat_imp. intros b H. unfold stopc in H. bsplit H. exact H. Qed.
+Proof. apply hd_sat_imp. intros b H. unfold stopc in H. bsplit H. assumption. Qed.
 Lemma stop_nosep k : stop k = true -> nosep k = true.
-Proof. apply hd_sat_imp. intros b H. unfold stopc in H. bsplit H. exact W1. Qed.
+Proof. apply hd_sat_imp. intros b H. unfold stopc in H. bsplit H. assumption. Qed.
 Lemma stop_noparen k : stop k = true -> noparen k = true.
-Proof. apply hd_sat_imp. intros b H. unfold stopc in H. bsplit H. exact W0. Qed.
+Proof. apply hd_sat_imp. intros b H. unfold stopc in H. bsplit H. assumption. Qed.
 Lemma stop_noquote k : stop k = true -> noquote k = true.
-Proof. apply hd_sat_imp. intros b H. unfold stopc in H. bsplit H. exact W. Qed.
+Proof. apply hd_sat_imp. intros b H. unfold stopc in H. bsplit H. assumption. Qed.
+Lemma stop_nodot k : stop k = true -> nodot k = true.
+Proof. apply hd_sat_imp. intros b H. unfold stopc in H. bsplit H. assumption. Qed.
+Definition noeq (k : list byte) : bool := hd_sat (fun b => negb (Byte.eqb b x3d)) k.
+Lemma stop_noeq k : stop k = true -> noeq k = true.
+Proof. apply hd_sat_imp. intros b H. unfold stopc in H. bsplit H. assumption. Qed.
 Lemma wstop_wordend k : wstop k = true -> wordend k = true.
 Proof. apply hd_sat_imp. intros b H. unfold wstopc in H. bsplit H. now rewrite H, W0. Qed.
 Lemma wstop_nid k : wstop k = true -> nid k = true.
@@ -153,7 +160,7 @@ Ltac hd_close :=
     [ assumption
     | reflexivity
     | apply stop_nb; assumption | apply stop_nosep; assumption | apply stop_noparen; assumption
-    | apply stop_noquote; assumption
+    | apply stop_noquote; assumption | apply stop_nodot; assumption
     | apply wstop_nid; assumption | apply wstop_wordend; assumption | apply wstop_nodot; assumption
     | match goal with H : _ -> wstop ?k = true |- hd_sat _ ?k = true =>
         first [apply wstop_nid | apply wstop_wordend | apply wstop_nodot | idtac]; apply H; reflexivity end
